@@ -35,6 +35,9 @@ CLAIMED["C14"]=("Bounded symbolic execution of the real evalIter / iterNew / ite
 CLAIMED["C05"]=("Bounded symbolic execution of the real FindPropAlongProtos/FindPropOwner, evalProp/_missing fallback, call dispatch, symbol indexing, bear/proto/which/keys built-ins and the native bro/ancestors/kindOf? through parsed programs: prototype forests of 2..3 objects whose shape (parent, bear vs bro, which of x/y/_missing each object defines and as what kind) is chosen by the solver; on every feasible shape z3 discharges agreement of o.name(args), o['name], which, proto, ancestors, kindOf? and keys with the forest model (first definer, else first _missing called with receiver+name+args, else NoPropErr).",
         TRUST,
         "SMT-decided bounded symbolic execution of go/ssa (z3); forest shapes enumerated by solver-decided choices")
+CLAIMED["C09"]=("Bounded symbolic execution of the real evalObj / evalMap / NewInheritedMap / existsNonHashableKey / extractEmbeddedElems / findElemInMap / keyHashes and the keys, values, items, len, iteration accessors through parsed programs: object literals whose names are solver choices (duplicates, private names, ** unpacking) and map literals whose key kinds are solver choices with symbolic int / float / array payloads, so that the solver decides which keys collide; on every feasible path z3 discharges agreement with an ordered-dictionary reference (first occurrence wins, sorted public names, scalar-first insertion order, m[k]).",
+        TRUST,
+        "SMT-decided bounded symbolic execution of go/ssa (z3, bit-vectors; symbolic map keys compared by solver-decided equality)")
 NA={
 }
 DEFAULT_NA="check under construction in this session (engine exists; harness not yet registered)"
